@@ -23,11 +23,12 @@ PageSize == 4096
 Byte(g, i) == (i + 31 * (i \div PageSize) + 97 * g + (i \div 251)) % 251
 
 VARIABLES
-    files,   \* f -> [size, writes: sequence of [a, b, g] (bytes a..b-1 rewritten with generation g), open]
+    files,   \* f -> [size, writes: sequence of [a, b, g] (bytes a..b-1 rewritten with generation g), open, fid]
     since,   \* f -> [page -> oldest admissible version]
-    rec      \* cached blob store: id -> digest of the record put
+    rec,     \* cached blob store: id -> digest of the record put
+    bufs     \* CacheBuffer objects of the harness: handle -> the bytes data() must show
 
-PcInit == files = [x \in {} |-> 0] /\ since = [x \in {} |-> 0] /\ rec = [x \in {} |-> 0]
+PcInit == files = [x \in {} |-> 0] /\ since = [x \in {} |-> 0] /\ rec = [x \in {} |-> 0] /\ bufs = [x \in {} |-> 0]
 
 Min2(a, b) == IF a < b THEN a ELSE b
 Max2(a, b) == IF a > b THEN a ELSE b
@@ -41,18 +42,21 @@ GenAt(F, v, i) ==
     IN Find(v)
 ByteAtV(F, v, i) == Byte(GenAt(F, v, i), i)
 
-(* the harness created file f (size bytes of generation g) and opened it *)
-NewFile(f, size, g) ==
+(* the harness created file f (size bytes of generation g) and opened it; the cache handed out file id fid, *)
+(* which must differ from the id of every other open file (pages are keyed by (file id, page))             *)
+OpenFids == { files[x].fid : x \in { y \in DOMAIN files : files[y].open } }
+NewFile(f, size, g, fid) ==
     /\ f \notin DOMAIN files
-    /\ files' = [x \in DOMAIN files \cup {f} |-> IF x = f THEN [size |-> size, writes |-> <<[a |-> 0, b |-> size, g |-> g]>>, open |-> TRUE] ELSE files[x]]
+    /\ fid \notin OpenFids
+    /\ files' = [x \in DOMAIN files \cup {f} |-> IF x = f THEN [size |-> size, writes |-> <<[a |-> 0, b |-> size, g |-> g]>>, open |-> TRUE, fid |-> fid] ELSE files[x]]
     /\ since' = [x \in DOMAIN since \cup {f} |-> IF x = f THEN [p \in 0..(NPages(size) - 1) |-> 1] ELSE since[x]]
-    /\ UNCHANGED rec
+    /\ UNCHANGED <<rec, bufs>>
 
 (* the harness rewrote bytes a..b-1 of f in place with generation g (size unchanged) *)
 Rewrite(f, a, b, g) ==
     /\ f \in DOMAIN files /\ a < b /\ b <= files[f].size
     /\ files' = [files EXCEPT ![f].writes = Append(@, [a |-> a, b |-> b, g |-> g])]
-    /\ UNCHANGED <<since, rec>>
+    /\ UNCHANGED <<since, rec, bufs>>
 
 (* number of bytes of the range off..off+len-1 that exist in the file *)
 Avail(F, off, len) == IF off >= F.size THEN 0 ELSE Min2(off + len, F.size) - off
@@ -77,29 +81,35 @@ ReadData(f, off, n, r) ==
     /\ \A p \in PagesOf(off, n) : FirstOK(F, Cur(f), off, n, r, p, since[f][p]) /= 0
     /\ since' = [since EXCEPT ![f] = [p \in DOMAIN @ |->
                     IF p \in PagesOf(off, n) THEN FirstOK(F, Cur(f), off, n, r, p, @[p]) ELSE @[p]]]
-    /\ UNCHANGED <<files, rec>>
+    /\ UNCHANGED <<files, rec, bufs>>
 
 Read(f, off, len, r) ==
     /\ f \in DOMAIN files
     /\ IF files[f].open
        THEN ReadData(f, off, Avail(files[f], off, len), r)
-       ELSE r = <<>> /\ UNCHANGED <<files, since, rec>>       \* closed file: nothing to return
+       ELSE r = <<>> /\ UNCHANGED <<files, since, rec, bufs>>       \* closed file: nothing to return
+
+(* a read at an offset beyond 2^31 (given as four 16-bit limbs, most significant first): beyond the end   *)
+(* of every file of the harness, so there is nothing to return - in particular not the bytes of the page *)
+(* whose number equals the offset's page number modulo 2^32                                             *)
+IsFar(offl) == offl[1] > 0 \/ offl[2] > 0 \/ offl[3] >= 32768
+ReadFar(f, offl, r) == f \in DOMAIN files /\ IsFar(offl) /\ r = <<>> /\ UNCHANGED <<files, since, rec, bufs>>
 
 (* read -> Err: refused, nothing changes *)
-ReadRefused == UNCHANGED <<files, since, rec>>
+ReadRefused == UNCHANGED <<files, since, rec, bufs>>
 
 (* invalidate_range(f, off, len) -> Ok: every page of the range must be reloaded before it is served again *)
 InvalidateRange(f, off, len) ==
     /\ f \in DOMAIN files
     /\ since' = [since EXCEPT ![f] = [p \in DOMAIN @ |-> IF p \in PagesOf(off, len) THEN Cur(f) ELSE @[p]]]
-    /\ UNCHANGED <<files, rec>>
+    /\ UNCHANGED <<files, rec, bufs>>
 InvalidatePage(f, p) ==
     /\ f \in DOMAIN files
     /\ since' = [since EXCEPT ![f] = [q \in DOMAIN @ |-> IF q = p THEN Cur(f) ELSE @[q]]]
-    /\ UNCHANGED <<files, rec>>
+    /\ UNCHANGED <<files, rec, bufs>>
 
 (* prefetch / mark_dirty / flush_file / a refused call: no effect on what reads may return *)
-NoEffect == UNCHANGED <<files, since, rec>>
+NoEffect == UNCHANGED <<files, since, rec, bufs>>
 
 FileSizeOK(f, r) == f \in DOMAIN files /\ (r = None \/ r = Some(files[f].size)) /\ NoEffect
 
@@ -107,7 +117,7 @@ FileSizeOK(f, r) == f \in DOMAIN files /\ (r = None \/ r = Some(files[f].size)) 
 CloseFile(f) ==
     /\ f \in DOMAIN files
     /\ files' = [files EXCEPT ![f].open = FALSE]
-    /\ UNCHANGED <<since, rec>>
+    /\ UNCHANGED <<since, rec, bufs>>
 
 (* number of cached pages never exceeds the configured capacity in pages *)
 SizeOK(r, capPages) == r <= capPages /\ NoEffect
@@ -117,12 +127,28 @@ SizeOK(r, capPages) == r <= capPages /\ NoEffect
 (* cached store (r) is logged together with the same observation of inner() (ir); records are    *)
 (* digests {len, h}.  put(d) -> id remembers d so that get can also be compared with what was put. *)
 RecUpd(id, d) == [x \in DOMAIN rec \cup {id} |-> IF x = id THEN d ELSE rec[x]]
-CsPut(id, d) == rec' = RecUpd(id, d) /\ UNCHANGED <<files, since>>
+CsPut(id, d) == rec' = RecUpd(id, d) /\ UNCHANGED <<files, since, bufs>>
 CsGet(id, ok, r, iok, ir) ==
     /\ ok = iok
     /\ ok => r = ir
     /\ (ok /\ id \in DOMAIN rec) => r = rec[id]
     /\ NoEffect
-CsRemove(id) == rec' = [x \in DOMAIN rec \ {id} |-> rec[x]] /\ UNCHANGED <<files, since>>
+CsRemove(id) == rec' = [x \in DOMAIN rec \ {id} |-> rec[x]] /\ UNCHANGED <<files, since, bufs>>
 CsSame(r, ir) == r = ir /\ NoEffect
+
+\* ---------------------------------------------------------------- CacheBuffer / BufferPool
+(* The buffers reads are delivered in.  data() must show exactly the bytes put into the buffer, whatever *)
+(* happened to it in between (reserve, extend, move); a buffer taken from the pool is empty.  Every      *)
+(* event carries the observations made right after the call: data(), len(), is_empty(), has_data().     *)
+BufObs(b, data, len, empty, has) ==
+    /\ data = bufs'[b] /\ len = Len(bufs'[b]) /\ empty = (bufs'[b] = <<>>)
+    /\ (bufs'[b] /= <<>> => has)
+BufSet(b, d) == bufs' = [x \in DOMAIN bufs \cup {b} |-> IF x = b THEN d ELSE bufs[x]] /\ UNCHANGED <<files, since, rec>>
+BufNew(b) == b \notin DOMAIN bufs /\ BufSet(b, <<>>)                 \* CacheBuffer::new(), BufferPool::get()
+BufFromData(b, d) == b \notin DOMAIN bufs /\ BufSet(b, d)            \* CacheBuffer::from_data(d)
+BufCopy(b, d) == b \in DOMAIN bufs /\ BufSet(b, d)                   \* copy_from_slice(d)
+BufExtend(b, d) == b \in DOMAIN bufs /\ BufSet(b, bufs[b] \o d)      \* extend_from_slice(d)
+BufClear(b) == b \in DOMAIN bufs /\ BufSet(b, <<>>)                  \* clear()
+BufKeep(b) == b \in DOMAIN bufs /\ BufSet(b, bufs[b])                \* reserve(n), a move of the object: content unchanged
+BufDrop(b) == bufs' = [x \in DOMAIN bufs \ {b} |-> bufs[x]] /\ UNCHANGED <<files, since, rec>>   \* BufferPool::put(buffer)
 =============================================================================
